@@ -10,32 +10,32 @@ CLUSTER_NOTE = ("Trusted base: the verification shims (cooperative scheduler, vi
 
 checks = {
  "C01": dict(level="model_checking", engine="cluster",
-   text="Explicit-state search over environment-event sequences (deliveries, late replies, drops, duplicates, timeouts, crashes at quiescent points and at storage-call boundaries, restarts, client submissions) of 1-5 node clusters of the real library under a controlled scheduler; every applied (index, term, bytes) on every instance is compared with the first application of that index anywhere, and per-instance index order is checked, in every reached state.",
+   text="Explicit-state search over environment-event sequences (deliveries, late replies, drops, duplicates, timeouts, crashes at quiescent points and at storage-call boundaries, restarts, client submissions) of 1-5 node clusters of the real library under a controlled scheduler; every applied (index, term, bytes) on every instance is compared with the first application of that index anywhere, and per-instance index order is checked, in every reached state. In addition every goroutine schedule within a bound of 2 (quick) / 3 (thorough) non-default decisions of the SCHED scenarios named in the evidence (concurrent submissions, concurrently handled requests and replies, crash and take-over; contested election) runs under the same monitors.",
    technique="explicit-state DFS over the real code (replay-based, state-hash pruning, deviation-bounded)", ref="4/C01"),
  "C02": dict(level="model_checking", engine="cluster",
-   text="Same search with election-centred budgets on 2-5 voters (even sizes included), crashes around vote persistence and the seed S-split (two candidates of one term); in every state at most one node id may be in leader state per term and all AppendEntries/InstallSnapshot requests of a term must name one leader.",
+   text="Same search with election-centred budgets on 2-5 voters (even sizes included), crashes around vote persistence and the seed S-split (two candidates of one term); in every state at most one node id may be in leader state per term and all AppendEntries/InstallSnapshot requests of a term must name one leader. In addition every goroutine schedule within a bound of 2 (quick) / 3 (thorough) non-default decisions of the SCHED scenarios named in the evidence (concurrent submissions, concurrently handled requests and replies, crash and take-over; contested election) runs under the same monitors.",
    technique="explicit-state DFS over the real code (replay-based, state-hash pruning, deviation-bounded, seeded)", ref="4/C02"),
  "C07": dict(level="model_checking", engine="cluster",
-   text="Same search; the committed set (every entry covered by any node's commit index) is tracked and every node that starts leading a later term must hold all of it and must not lose it while it leads.",
+   text="Same search; the committed set (every entry covered by any node's commit index) is tracked and every node that starts leading a later term must hold all of it and must not lose it while it leads. In addition every goroutine schedule within a bound of 2 (quick) / 3 (thorough) non-default decisions of the SCHED scenarios named in the evidence (concurrent submissions, concurrently handled requests and replies, crash and take-over; contested election) runs under the same monitors.",
    technique="explicit-state DFS over the real code with a committed-set monitor", ref="4/C07"),
  "C03": dict(level="model_checking", engine="cluster",
-   text="Same search with 2-3 overlapping client submissions, client give-ups, leader changes and crashes; every acknowledged future is compared with the authoritative applied order (bytes, index, term, state-machine result), every operation may appear at most once, and real-time order (acknowledged-before-invoked) must agree with applied order, in every reached state.",
+   text="Same search with 2-3 overlapping client submissions, client give-ups, leader changes and crashes; every acknowledged future is compared with the authoritative applied order (bytes, index, term, state-machine result), every operation may appear at most once, and real-time order (acknowledged-before-invoked) must agree with applied order, in every reached state. In addition every goroutine schedule within a bound of 2 (quick) / 3 (thorough) non-default decisions of the SCHED scenarios named in the evidence (concurrent submissions, concurrently handled requests and replies, crash and take-over; contested election) runs under the same monitors.",
    technique="explicit-state DFS over the real code with an incremental linearizability monitor", ref="4/C03"),
  "C04": dict(level="model_checking", engine="cluster",
-   text="Same search with crashes at quiescent points and armed at storage-call boundaries (before/after log append, truncate, term/vote write), restarts of any subset, 1-5 voters and the seed S-stale; at every acknowledgement and first application the entry must be in the persistent logs of a majority of voters; later applications are covered by the C01 monitor across crash epochs.",
+   text="Same search with crashes at quiescent points and armed at storage-call boundaries (before/after log append, truncate, term/vote write), restarts of any subset, 1-5 voters and the seed S-stale; at every acknowledgement and first application the entry must be in the persistent logs of a majority of voters; later applications are covered by the C01 monitor across crash epochs. In addition every goroutine schedule within a bound of 2 (quick) / 3 (thorough) non-default decisions of the SCHED scenarios named in the evidence (concurrent submissions, concurrently handled requests and replies, crash and take-over; contested election) runs under the same monitors.",
    technique="explicit-state DFS over the real code with storage-boundary crash injection", ref="4/C04"),
  "C05": dict(level="model_checking", engine="cluster",
-   text="Untimed search (heartbeat requests and replies may be delayed without bound, partitions) with linearizable reads at any node believing to lead, including a deposed leader (seed S-deposed); a successful read must cover every write acknowledged before its invocation and non-overlapping reads must be monotone.",
+   text="Untimed search (heartbeat requests and replies may be delayed without bound, partitions) with linearizable reads at any node believing to lead, including a deposed leader (seed S-deposed); a successful read must cover every write acknowledged before its invocation and non-overlapping reads must be monotone. A SCHED scenario enumerates every goroutine schedule (bound 2 / 4) inside a freshly elected leader that receives a read before its first commit.",
    technique="explicit-state DFS over the real code, per-node virtual clocks, stale-read monitor with root-cause classifier", ref="4/C05"),
  "C06": dict(level="exploration", engine="handler",
    text="Small-scope exhaustive input enumeration: every AppendEntries request of the bounded domain (term lower/equal/higher, every prev index, every contiguous entries window, every leaderCommit) from every Log-Matching-compatible sender log against every follower state (log up to 4/5 entries over 3 terms, compacted prefix, commit index, term), plus ordered request pairs; each case calls the exported handler on a fresh real node booted from preloaded storage and checks the per-call rules of the property; the cluster explorer additionally checks pairwise log matching of persistent logs in every reached state.",
    technique="exhaustive small-scope input enumeration against the real handler + explicit-state cluster search",
    note="Trusted base: shims, in-memory storage with the file log's semantics, the oracle's reading of the property (requests contradicting the follower's committed prefix are outside the domain). Bounded by log length and 3 terms.", ref="4/C06"),
  "C08": dict(level="model_checking", engine="cluster",
-   text="Explicit-state search over one real node booted from preloaded storage (15 start states over term, vote, log) with two puppet peers: every sequence of up to 4/5 steps over injected RequestVote/AppendEntries/InstallSnapshot requests, own timeouts, every answer to its own requests, crashes at quiescent points and at storage-call boundaries, restart; plus the cluster suites. Monitors: term never decreases (replies, status, across restarts), at most one grantee per (node, term), grant implies up-to-date candidate log and a persisted vote, prevote leaves stored (term, vote) unchanged.",
+   text="Explicit-state search over one real node booted from preloaded storage (15 start states over term, vote, log) with two puppet peers: every sequence of up to 4/5 steps over injected RequestVote/AppendEntries/InstallSnapshot requests, own timeouts, every answer to its own requests, crashes at quiescent points and at storage-call boundaries, restart; plus the cluster suites. Monitors: term never decreases (replies, status, across restarts), at most one grantee per (node, term), grant implies up-to-date candidate log and a persisted vote, prevote leaves stored (term, vote) unchanged, a granted and stored vote is never replaced by an empty vote for the same term. In addition every goroutine schedule within a bound of 2 (quick) / 3 (thorough) non-default decisions of the SCHED scenarios named in the evidence (concurrent submissions, concurrently handled requests and replies, crash and take-over; contested election) runs under the same monitors.",
    technique="explicit-state DFS over a single real node with puppet peers (HANDLER) + cluster DFS", ref="4/C08"),
  "C19": dict(level="exploration", engine="codec",
-   text="Cartesian enumeration of request/response field domains (0, 1, 2^32, max; empty/ASCII/non-ASCII ids; nil/empty/1 B/1 KiB byte slices; 0-2 entries of all three types; snapshot payloads 0 B to 8 MiB) through two real gRPC transports on loopback, the library's converters in-process, and read-back through the real file storages; received must equal sent field-wise (nil == empty bytes).",
+   text="Cartesian enumeration of request/response field domains (0, 1, 2^32, max; empty/ASCII/non-ASCII ids; nil/empty/1 B/1 KiB byte slices; 0-2 entries of all three types and suffixes of 255 to 65537 entries; snapshot payloads 0 B to 8 MiB) through two real gRPC transports on loopback, the library's converters in-process, and read-back through the real file storages; received must equal sent field-wise (nil == empty bytes).",
    technique="exhaustive enumeration of a finite input domain through the real transport and storages",
    note="Trusted base: loopback TCP, gRPC, the comparison code. LogEntry.Offset is storage-only and not compared on the RPC path. 2-entry lists over real RPCs use a pairwise header design (full product in-process).", ref="4/C19"),
  "C10": dict(level="exploration", engine="sched",
@@ -43,7 +43,7 @@ checks = {
    technique="stateless schedule enumeration with iterative context bounding on the real code (controlled scheduler)",
    note="Trusted base: scheduler shim, in-memory storage, recfsm. Switch points are the library's synchronisation operations (sound given C20). Bounded number of non-default decisions; fixed scenarios.", ref="4/C10"),
  "C20": dict(level="exploration", engine="sched",
-   text="The same schedule enumeration built with -race: hand-offs between goroutines go through //go:norace spin gates and shim functions are norace, so the detector's happens-before analysis sees only the library's own synchronisation (real mutexes inside the shim mutex, real goroutine creation, message transfer edges); six scenarios (election + submitters + status pollers, snapshot while applying, membership changes during submissions, Stop/Restart during activity, snapshot installation on a lagging follower, lifecycle calls racing on a fresh node) under every schedule with up to 1 (quick) / 2 (thorough) non-default decisions; any report whose two accesses are both in library code is a violation.",
+   text="The same schedule enumeration built with -race: hand-offs between goroutines go through //go:norace spin gates and shim functions are norace, so the detector's happens-before analysis sees only the library's own synchronisation (real mutexes inside the shim mutex, real goroutine creation, message transfer edges); eight scenarios (election + submitters + status pollers, snapshot while applying, membership changes during submissions, Stop/Restart during activity, snapshot installation on a lagging follower, lifecycle calls racing on a fresh node, a membership change applied while the same node takes a snapshot, compaction of the real file-backed log while requests carrying the surviving entries are with the transport) under every schedule with up to 1 (quick) / 2 (thorough) non-default decisions; any report whose two accesses are both in library code is a violation.",
    technique="schedule enumeration under the Go race detector with detector-invisible scheduler hand-offs",
    note="Trusted base: Go race detector (bounded access history per word), shims. Reports with a harness-side access are ignored (the harness reads library memory between hand-offs by design).", ref="4/C20"),
  "C09": dict(level="model_checking", engine="cluster",
@@ -58,15 +58,15 @@ checks = {
    technique="exhaustive crash-point enumeration over bounded operation sequences on the real storages",
    note="Process-crash fault model; trusted base: vos interception layer.", ref="4/C13"),
  "C18": dict(level="exploration", engine="api",
-   text="Every single call, ordered pair (sequential and concurrent) and lifecycle-led triple (thorough: any third call, 4-call lifecycle sequences) from a 24-call menu of the public API (Bootstrap variants, Start/Restart/Stop, SubmitOperation of every type incl. an invalid one, nil/non-nil data, zero timeout, AddServer/RemoveServer incl. invalid ids and self, Status, Configuration, State/OperationType rendering) on a node in each of 9 base states (never started, follower, leader before/after first commit, pre-candidate, candidate, stopped, stopped-then-restarted, removed), followed by default cluster activity and an election timeout on every node; oracle: no panic in any goroutine, no process exit through the fatal path, every call returns, membership futures of changes that committed under the submitting leader resolved with the right configuration.",
+   text="Every single call, ordered pair (sequential and concurrent) and lifecycle-led triple (thorough: any third call, 4-call lifecycle sequences) from a 24-call menu of the public API (Bootstrap variants, Start/Restart/Stop, SubmitOperation of every type incl. an invalid one, nil/non-nil data, zero timeout, AddServer/RemoveServer incl. invalid ids and self, Status, Configuration, State/OperationType rendering) on a node in each of 9 base states (never started, follower, leader before/after first commit, pre-candidate, candidate, stopped, stopped-then-restarted, removed), followed by default cluster activity and an election timeout on every node; oracle: no panic in any goroutine, no process exit through the fatal path, every call returns, membership futures of changes that committed under the submitting leader resolved with the right configuration and were not refused.",
    technique="exhaustive enumeration of bounded API call sequences over base states on the real code under the controlled scheduler",
    note="Canonical goroutine interleaving inside a step (schedule enumeration of API calls is in C20's scenarios); futures are polled, not awaited through the real select.", ref="4/C18"),
  "C16": dict(level="model_checking", engine="cluster",
-   text="Timed cluster search (global clock in heartbeat intervals, election timeout 6, lease 2; prompt delivery unless a link is cut; staggered election timeouts, all three rotations): from a stable leader, and from the seed in which the minority node has been isolated for 10 intervals and is campaigning, every placement of symmetric / inbound-only / outbound-only isolation, heal, crash and restart of the minority node and of out-of-order deliveries of individual messages over a 16-36 interval horizon within the deviation bound; the leader must stay leader and the majority's term must not increase in any reached state.",
+   text="Timed cluster search (global clock in heartbeat intervals, election timeout 6, lease 2; prompt delivery unless a link is cut; staggered election timeouts, all three rotations): from a stable leader and from seeds in which the minority node has been isolated for 10 intervals and is campaigning, lost a same-term election as a candidate before being cut off, was removed from the cluster without learning of it, or campaigns while the leader catches its majority partner up with a snapshot of several requests, every placement of symmetric / inbound-only / outbound-only isolation, heal, crash and restart of the minority node and of out-of-order deliveries of individual messages over a 16-36 interval horizon within the deviation bound; the leader must stay leader and the majority's term must not increase in any reached state.",
    technique="explicit-state DFS over the real code with a global virtual clock (timed mode)",
    note="Premise enforced by the alphabet (faults only on the minority node, majority links prompt). Trusted base as for the cluster engine plus the tick abstraction of time.", ref="4/C16"),
  "C17": dict(level="model_checking", engine="cluster",
-   text="Timed cluster search with synchronised clocks and per-message delay of at most one interval (lease 2 + delay 1 < election timeout 6): lease reads at any node that believes it leads, writes, isolation/heal of any node, from a stable 3-voter leader, from the seed where the old leader has been cut off while a new leader exists, and from a 5-voter seed where the old leader keeps only one follower; a successful lease read must cover every write acknowledged before its invocation.",
+   text="Timed cluster search with synchronised clocks and per-message delay of at most one interval (lease 2 + delay 1 < election timeout 6): lease reads at any node that believes it leads, writes, isolation/heal of any node, from a stable 3-voter leader, from the seed where the old leader has been cut off while a new leader exists, from a 5-voter seed where the old leader keeps only one follower, from a seed where it keeps only two non-voters and from a seed with a lagging voter that rejects the next heartbeat while another voter campaigns; plus a SCHED scenario over the goroutine schedules inside a freshly elected leader; a successful lease read must cover every write acknowledged before its invocation.",
    technique="explicit-state DFS over the real code with a global virtual clock (timed mode), stale-read monitor",
    note="Synchronised clocks on an integer tick grid; at most one outstanding read per node. Trusted base as for the cluster engine.", ref="4/C17"),
  "C11": dict(level="exploration", engine="handler",
@@ -74,11 +74,11 @@ checks = {
    technique="exhaustive small-scope request-sequence enumeration against the real handler + explicit-state cluster search",
    note="The differential twin of the design is replaced by the catch-up oracle and vote probes. One sender history of 6 entries over 3 terms.", ref="4/C11"),
  "C14": dict(level="fault_enumeration", engine="crash-cluster",
-   text="Nine scripted cluster schedules (election and replication, conflict and truncate, vote then candidate dies, local snapshot and compaction, snapshot installation on a lagging follower with small and 33 KiB payloads, installation over a stale suffix, compaction followed by a conflict, membership changes) run on the library's real file-backed storages through the intercepting os layer; every mutating file-system call of every node is a crash point (plus torn prefixes of writes): the node is killed there, restarted over the same directory, then 150 fault-free intervals follow. Oracle: constructors and Start succeed, the recovered log is well formed and holds what the node held, no fatal exit or panic, safety monitors hold, one leader, progress, every member catches up.",
+   text="Eleven scripted cluster schedules (election and replication, conflict and truncate, vote then candidate dies, local snapshot and compaction, snapshot installation on a lagging follower with small and 33 KiB payloads, installation over a stale suffix, compaction followed by a conflict, snapshot visible before a later-term entry, same-term step-down after a vote, membership changes) run on the library's real file-backed storages through the intercepting os layer; every mutating file-system call of every node is a crash point (plus torn prefixes of writes): the node is killed there, restarted over the same directory, then 150 fault-free intervals follow. Oracle: constructors and Start succeed, the recovered log is well formed and holds what the node held, no fatal exit or panic, safety monitors hold, one leader, progress, every member catches up.",
    technique="exhaustive crash-point enumeration over cluster schedules on the real storages, with restart and bounded-liveness continuation",
    note="Process-crash fault model, one crash per run, fixed schedules under canonical scheduling. Trusted base: vos layer, storage mirrors used by the monitors.", ref="4/C14"),
  "C15": dict(level="model_checking", engine="cluster",
-   text="Bounded liveness made safety: from every leaf state (quick) / every distinct state (thorough) of bounded explorations with crashes at storage-call boundaries, partitions, membership changes and snapshots below and above the chunk size, a fault-free continuation of 150 heartbeat intervals (25 election timeouts; prompt delivery, staggered election timeouts) must end with exactly one leader, an acknowledged fresh operation and every member of the committed configuration holding the leader's applied sequence.",
+   text="Bounded liveness made safety: from every leaf state (quick) / every distinct state (thorough) of bounded explorations with crashes at storage-call boundaries, partitions, membership changes (3 voters + spare; 1 voter growing a cluster), snapshots below and above the chunk size, and seeds (term gap, re-added member with a snapshot, one follower snapshotting ahead of the leader's probe), a fault-free continuation of 150 heartbeat intervals (25 election timeouts; prompt delivery, staggered election timeouts) must end with exactly one leader, an acknowledged fresh operation and every member of the committed configuration holding the leader's applied sequence.",
    technique="explicit-state DFS over the real code with a fault-free timed continuation evaluated per state",
    note="Premise checked per state (a majority of voters running). Horizon deliberately generous; one timeout rotation per run.", ref="4/C15"),
 }
@@ -103,7 +103,7 @@ m = {
    {"name": "cluster", "path": "mc/explore + mc/sim + mc/monitor", "serves_properties": sorted(k for k, v in checks.items() if v["engine"] == "cluster"),
     "kind_free_text": "stateful depth-first search over environment events of a simulated cluster running the real library under a cooperative scheduler (overlay-instrumented build)"},
    {"name": "handler", "path": "mc/cmd/check/c06.go + mc/sim/single.go", "serves_properties": ["C06", "C11"], "kind_free_text": "exhaustive small-scope input enumeration against exported handlers of a real node booted from preloaded storage"},
-   {"name": "sched", "path": "mc/sched", "serves_properties": ["C10", "C20"], "kind_free_text": "stateless enumeration of goroutine schedules of fixed scenarios up to a bound on non-default decisions (controlled cooperative scheduler; optionally under -race)"},
+   {"name": "sched", "path": "mc/sched", "serves_properties": ["C01", "C02", "C03", "C04", "C05", "C07", "C08", "C09", "C10", "C17", "C20"], "kind_free_text": "stateless enumeration of goroutine schedules of fixed scenarios up to a bound on non-default decisions (controlled cooperative scheduler; optionally under -race)"},
    {"name": "crash", "path": "mc/crashfs + shim/vos", "serves_properties": ["C12", "C13"], "kind_free_text": "crash-point / torn-write enumeration of operation sequences on the real file-backed storages through an intercepting os layer"},
    {"name": "crash-cluster", "path": "mc/cmd/check/c14.go + mc/sim/filestore.go", "serves_properties": ["C14"], "kind_free_text": "crash-point enumeration over scripted cluster schedules on the real file-backed storages"},
    {"name": "api", "path": "mc/cmd/check/c18.go + mc/sim/api.go", "serves_properties": ["C18"], "kind_free_text": "exhaustive bounded API-call sequences from constructed base states"},
